@@ -569,15 +569,30 @@ func dsExercise(w dsWork, scopes map[string]schema.Type, again any, say func(dsC
 		labels = append(labels, l)
 	}
 	sort.Strings(labels)
-	if len(labels) > 4 {
-		labels = labels[:4]
+	// EVERY returned data scope - input, each output, each signal handler and each signal emitter,
+	// separately - must be completely linked, whether or not an input reaches every part
+	for _, l := range labels {
+		for _, problem := range dsLinkProblems(scopes[l]) {
+			say(dsChildLine{Kind: "check", ID: w.ID, What: "scope " + strconv.Quote(l) + ": " + problem})
+		}
+	}
+	// exercised: signal handlers that share their key with an emitter first, then a seeded selection
+	if len(labels) > 5 {
+		var first, rest []string
+		for _, l := range labels {
+			if i := strings.Index(l, "/handler/"); i >= 0 {
+				if _, ok := scopes[l[:i]+"/emitter/"+l[i+len("/handler/"):]]; ok {
+					first = append(first, l)
+					continue
+				}
+			}
+			rest = append(rest, l)
+		}
+		g.R.Shuffle(len(rest), func(i, j int) { rest[i], rest[j] = rest[j], rest[i] })
+		labels = append(first, rest...)[:5]
 	}
 	for _, l := range labels {
 		sc := scopes[l]
-		// the returned scope must be completely linked, whether or not an input reaches every part
-		for _, problem := range dsLinkProblems(sc) {
-			say(dsChildLine{Kind: "check", ID: w.ID, What: "scope " + strconv.Quote(l) + ": " + problem})
-		}
 		t := trees[l]
 		if t == nil {
 			say(dsChildLine{Kind: "use", ID: w.ID, What: "description of a returned scope cannot be parsed: " + l})
@@ -720,22 +735,31 @@ func dsLinkProblems(sc schema.Type) (problems []string) {
 // twice (recursive references); `choice` selects which member of each one-of is taken. Scalars come
 // from the type-directed generator.
 func dsCover(g *hx.Gen, t *dsTy, env map[string]*dsTy, onPath map[string]int, choice int, depth int) *hx.Val {
+	return dsCoverOpt(g, t, env, onPath, choice, depth, false)
+}
+
+// dsCoverOpt: with requiredOnly, objects get their required, enabled properties only (the rest is
+// left to defaults and presence rules).
+func dsCoverOpt(g *hx.Gen, t *dsTy, env map[string]*dsTy, onPath map[string]int, choice int, depth int, requiredOnly bool) *hx.Val {
 	if t == nil || depth > 12 {
 		return hx.StrAny()
 	}
 	switch t.T {
 	case "list":
-		return hx.List(dsCover(g, t.Item, env, onPath, choice, depth+1))
+		return hx.List(dsCoverOpt(g, t.Item, env, onPath, choice, depth+1, requiredOnly))
 	case "map":
-		k := dsCover(g, t.K, env, onPath, choice, depth+1)
-		if k.Kind == "f" || k.Kind == "b" || k.Kind == "nil" {
+		k := dsCoverOpt(g, t.K, env, onPath, choice, depth+1, requiredOnly)
+		if k.Kind != "s" && k.Kind != "i" { // a Go map key must be hashable; keep strings and integers
 			k = hx.Str("k")
 		}
-		return hx.AnyAny([2]*hx.Val{k, dsCover(g, t.V, env, onPath, choice, depth+1)})
+		return hx.AnyAny([2]*hx.Val{k, dsCoverOpt(g, t.V, env, onPath, choice, depth+1, requiredOnly)})
 	case "obj":
 		m := hx.StrAny()
 		for _, np := range t.Props {
-			m.M = append(m.M, [2]*hx.Val{hx.Str(np.Name), dsCover(g, np.P.Ty, env, onPath, choice, depth+1)})
+			if requiredOnly && (!np.P.Required || np.P.Disabled) {
+				continue
+			}
+			m.M = append(m.M, [2]*hx.Val{hx.Str(np.Name), dsCoverOpt(g, np.P.Ty, env, onPath, choice, depth+1, requiredOnly)})
 		}
 		return m
 	case "ref":
@@ -744,7 +768,7 @@ func dsCover(g *hx.Gen, t *dsTy, env map[string]*dsTy, onPath map[string]int, ch
 			return hx.StrAny() // nothing known about the target: any map enters the reference
 		}
 		onPath[t.ID]++
-		v := dsCover(g, o, env, onPath, choice, depth+1)
+		v := dsCoverOpt(g, o, env, onPath, choice, depth+1, requiredOnly)
 		onPath[t.ID]--
 		return v
 	case "scope":
@@ -756,13 +780,13 @@ func dsCover(g *hx.Gen, t *dsTy, env map[string]*dsTy, onPath map[string]int, ch
 		if !ok {
 			return hx.StrAny()
 		}
-		return dsCover(g, root, env2, map[string]int{t.Root: 1}, choice, depth+1)
+		return dsCoverOpt(g, root, env2, map[string]int{t.Root: 1}, choice, depth+1, requiredOnly)
 	case "oneOf":
 		if len(t.Members) == 0 {
 			return hx.StrAny()
 		}
 		mb := t.Members[choice%len(t.Members)]
-		v := dsCover(g, mb.Ty, env, onPath, choice, depth+1)
+		v := dsCoverOpt(g, mb.Ty, env, onPath, choice, depth+1, requiredOnly)
 		if v.Kind != "m" {
 			v = hx.StrAny()
 		}
@@ -1057,7 +1081,9 @@ func dsWitnessesC10(add func(mode string, v *hx.Val, note string)) {
 	add("scope", scope("A", kv("A", obj("A", kv("c", prop(m(kv("type_id", S("integer")), kv("units", m(kv("base_unit", unit("b")), kv("multipliers", hx.AnyAny([2]*hx.Val{hx.Int("int64", -5), unit("k")}))))))), kv("d", prop(strT))))), "witness: negative unit multiplier")
 	// references that cannot be linked, away from the root object: in a non-root object, under a list,
 	// under a map, as a one-of member
-	nsref := func(id, ns string) *hx.Val { return m(kv("type_id", S("ref")), kv("id", S(id)), kv("namespace", S(ns))) }
+	nsref := func(id, ns string) *hx.Val {
+		return m(kv("type_id", S("ref")), kv("id", S(id)), kv("namespace", S(ns)))
+	}
 	opt := kv("required", hx.Bool(false))
 	child := func(leaf *hx.Val) *hx.Val {
 		return scope("Root", kv("Root", obj("Root", kv("child", prop(ref("Child"), opt)), kv("x", prop(strT, opt)))),
@@ -1088,6 +1114,24 @@ func dsWitnessesC10(add func(mode string, v *hx.Val, note string)) {
 	add("schema", m(kv("steps", m(kv("s", stepIn)))), "witness: unenforced root object with a differing ID in a step input")
 	stepOut := m(kv("id", S("s")), kv("input", scope("O", kv("O", obj("O")))), kv("outputs", m(kv("ok", m(kv("schema", unenfRoot("Obj1", "zz")))))))
 	add("hello", m(kv("steps", m(kv("s", stepOut)))), "witness: unenforced root object with a differing ID in a step output")
+	// a signal handler and a signal emitter under the same key: both data schemas must be linked and
+	// checked; the handler's needs it (a reference), or is defective
+	handlerData := func(itemRef *hx.Val, root string, extra ...[2]*hx.Val) *hx.Val {
+		props := append([][2]*hx.Val{kv("item", prop(itemRef, opt)), kv("x", prop(strT, opt))}, extra...)
+		return scope(root, kv("Root", obj("Root", props...)), kv("Item", obj("Item", kv("y", prop(strT, opt)), kv("z", prop(strT, opt)))))
+	}
+	sameKey := func(hdata *hx.Val) *hx.Val {
+		sig := func(data *hx.Val) *hx.Val { return m(kv("sig", m(kv("id", S("sig")), kv("data_schema", data)))) }
+		st := m(kv("id", S("s")), kv("input", scope("O", kv("O", obj("O")))), kv("outputs", m(kv("ok", okOut))),
+			kv("signal_handlers", sig(hdata)), kv("signal_emitters", sig(scope("E", kv("E", obj("E", kv("e", prop(strT, opt))))))))
+		return m(kv("steps", m(kv("s", st))))
+	}
+	for _, mode := range []string{"schema", "hello"} {
+		add(mode, sameKey(handlerData(ref("Item"), "Root")), "witness: handler and emitter share a key; the handler's data schema has a reference (valid)")
+		add(mode, sameKey(handlerData(ref("Nope"), "Root")), "witness: handler and emitter share a key; dangling reference in the handler's data schema")
+		add(mode, sameKey(handlerData(ref("Item"), "Gone")), "witness: handler and emitter share a key; the handler's data schema has no root object")
+		add(mode, sameKey(handlerData(ref("Item"), "Root", kv("q", prop(m(kv("type_id", S("integer"))), opt, kv("default", S("{")))))), "witness: handler and emitter share a key; undecodable default in the handler's data schema")
+	}
 	// known finding D13: recursion that does not consume input
 	add("scope", scope("A", kv("A", obj("A", kv("n", prop(ref("A"), kv("required", hx.Bool(false)), kv("default", S("{}"))))))), "witness D13: default re-enters its own object")
 	add("scope", scope("A", kv("A", obj("A", kv("next", prop(ref("A"), kv("required", hx.Bool(false))))))), "witness D13: single-property object referring to itself")
